@@ -10,6 +10,10 @@
 //	                 damaged afterwards (dangling type references: the nil dereferences of the Go code).
 //	-mode sdl      : the same line for the schema in -files (a probe schema directory's *.graphql)
 //	-mode prelude  : the `__*` introspection types in the execution model's schema format
+//	-mode gatecfg  : Case JSON lines whose `exts` register handler extensions around the gate (the real
+//	                 extension.Introspection, parameter / context mutators, operation middleware; per-request
+//	                 conditions) in every registration order of the configurations in -corpus (corpus/C16/gatecfg)
+//	                 and in generated / reversed / shuffled order for seeded random ones (gatecfg.go)
 //	-mode gate     : Case JSON lines for a generated server's runner (`-mode run`): queries that reach
 //	                 __schema / __type / _service through aliases, fragments, inline fragments, @skip/@include
 //	                 with variables, several operations; -fed adds `_service`
@@ -1230,6 +1234,15 @@ func main() {
 			}
 		}
 		genGate(rng.New(*seed^0xC16), count, *fed)
+	case "gatecfg":
+		count := *n
+		if count == 0 {
+			count = 150
+			if *tier == "thorough" {
+				count = 1000
+			}
+		}
+		genGateCfg(rng.New(*seed^0xC16CF6), count, *fed, *corpus)
 	default:
 		fmt.Fprintln(os.Stderr, "unknown mode")
 		os.Exit(2)
